@@ -215,6 +215,7 @@ def run_property(build_mod: str, pid: str, argv=None) -> int:
     # ---- verdicts
     known, fixed = load_findings(pid)
     baseline = _load_baseline(pid)
+    baseline_base = {n.split("#p")[0] for n in baseline}
     violations, known_hits, undecided = [], [], []
     for ob in all_obs:
         if ob["kind"] == "cover":
@@ -232,7 +233,7 @@ def run_property(build_mod: str, pid: str, argv=None) -> int:
         else:  # unknown
             if rec:
                 known_hits.append((rec, ob))
-            elif ob["name"] in baseline:
+            elif ob["name"] in baseline or ob["name"].split("#p")[0] in baseline_base:
                 ob["detail"] += " | was discharged in the committed baseline, now undecided by both solvers"
                 violations.append(ob)
             else:
